@@ -1200,7 +1200,7 @@ def mut_unit():
                 intrinsics={'default_to_zulu': zulu},
                 abstract={('Td', 'total_seconds', ()): ('secs {0}', 'N')},
                 hooks={'isinstance': isinstance_hook, 'always_truthy': ('TI', 'Dt'), 'method': method, 'frame': frame,
-                       'str_const': True, 'float_as_int': True},
+                       'str_lit': True, 'float_as_int': True},
                 ctx_params=[('fr', 'GV.OS.Act G H W'), ('areaOf', 'GV.OS.Stamp H W → α'), ('secs', 'Int → α')],
                 externals=_time_externals())
 
